@@ -1,0 +1,8 @@
+//go:build verif
+
+package validator
+
+// VerifUnsafeBuiltins exposes the deny-list handed to rego.UnsafeBuiltins (verification hook).
+func VerifUnsafeBuiltins() map[string]struct{} {
+	return unsafeBuiltinsMap
+}
